@@ -66,7 +66,7 @@ def run_one(rng, counters, tier):
     try:
         P = rng.choice([2, 3, 3, 4, 4] if tier == "quick" else [2, 3, 4, 4, 5, 6])
         p = {"ploidy": P, "n_chrom": rng.choice([1, 1, 2, 3]), "shared_positions": rng.random() < 0.5, "dead_chrom": rng.choice([None, None, "hom", "noreads"]),
-             "gt_noise": rng.choice([0.0, 0.0, 0.1, 0.3]), "adjacent_cut": rng.random() < 0.3, "chrom_len": rng.choice([2000, 3000]), "n_var": rng.randint(5, 22 if P <= 4 else 12),
+             "gt_noise": rng.choice([0.0, 0.0, 0.1, 0.3]), "adjacent_cut": rng.random() < 0.3, "gt_missing": rng.choice([0.0, 0.0, 0.08]), "chrom_len": rng.choice([2000, 3000]), "n_var": rng.randint(5, 22 if P <= 4 else 12),
              "samples": ["sampleA", "sampleB"][: rng.choice([1, 1, 2])], "depth": rng.choice([4, 8, 12]), "read_len": rng.choice([(150, 500), (300, 1200)]),
              "error_rate": rng.choice([0.0, 0.01, 0.05]), "multiallelic": rng.choice([0.0, 0.2]), "collapse": rng.choice([0.0, 0.5]),
              "coverage_gaps": rng.choice([0, 0, 1, 2]), "paired": rng.choice([0.0, 0.5, 1.0])}
@@ -119,6 +119,12 @@ def run_one(rng, counters, tier):
         meta, osamples, orecs = vcftext.parse(text)
         _, isamples, irecs = vcftext.parse(sim.doc.text())
         targets = opts.get("samples") or p["samples"]
+        in_gt = {}
+        for ri in sim.doc.records:
+            if ri.get("kind") != "snv":
+                continue  # hostile extra records (symbolic / no ALT / second record of a position) are not read as variants
+            for k_, s_ in enumerate(sim.doc.samples):
+                in_gt.setdefault((s_, ri["chrom"], ri["pos"]), vcftext.split_gt(ri["calls"][k_].get("GT"))[0])
         nt = False
         if len(orecs) != len(irecs):
             viol.append({"mech": "record-count", "msg": "%d records in, %d out" % (len(irecs), len(orecs))})
@@ -147,6 +153,12 @@ def run_one(rng, counters, tier):
                         viol.append({"mech": "phased-without-solver-call", "msg": "%s %s has phased calls but phase_single_individual was not reached" % (s, chrom)})
                     continue
                 Lpos = tr[-1]["positions"]
+                # what the solver is given must be heterozygous calls of this very sample (own parse of the input)
+                for q in Lpos:
+                    gq = in_gt.get((s, chrom, q + 1))
+                    if gq is None or "." in gq or len(set(gq)) < 2:
+                        viol.append({"mech": "solver-given-non-heterozygous-site", "msg": "%s %s:%d (input genotype %r) is among the variants handed to phase_single_individual" % (s, chrom, q + 1, gq)})
+                        break
                 order = {q: k for k, q in enumerate(Lpos)}
                 csets = sorted(((b, sorted(v)) for (c2, b), v in sets.items() if c2 == chrom), key=lambda t: t[1][0])
                 counters["interval_checks"] = counters.get("interval_checks", 0) + 1
